@@ -20,11 +20,18 @@ import (
 	"net/netip"
 	"slices"
 	"strings"
+	"sync"
 	"time"
 
 	"github.com/mdlayher/corerad/internal/system"
 	"github.com/mdlayher/ndp"
 )
+
+// prepareMu serializes Prepare, which rebinds a Plugin's runtime state to its
+// network interface every time that interface is (re)initialized, with String
+// and Apply, which read that state and may be called at any time by the metrics
+// and HTTP API handlers sharing the same Plugin values.
+var prepareMu sync.RWMutex
 
 // A Plugin specifies a CoreRAD plugin's configuration.
 type Plugin interface {
@@ -171,6 +178,9 @@ func (l *LLA) Name() string { return "lla" }
 
 // String implements Plugin.
 func (l *LLA) String() string {
+	prepareMu.RLock()
+	defer prepareMu.RUnlock()
+
 	var s string
 	if l.Addr != nil {
 		s = l.Addr.String()
@@ -183,12 +193,18 @@ func (l *LLA) String() string {
 
 // Prepare implements Plugin.
 func (l *LLA) Prepare(ifi *net.Interface) error {
+	prepareMu.Lock()
+	defer prepareMu.Unlock()
+
 	l.Addr = ifi.HardwareAddr
 	return nil
 }
 
 // Apply implements Plugin.
 func (l *LLA) Apply(ra *ndp.RouterAdvertisement) error {
+	prepareMu.RLock()
+	defer prepareMu.RUnlock()
+
 	// Only apply the option if Addr is set. It would not be set for
 	// point-to-point links, for example.
 	if l.Addr == nil {
@@ -255,6 +271,9 @@ func (p *Prefix) Name() string { return "prefix" }
 
 // String implements Plugin.
 func (p *Prefix) String() string {
+	prepareMu.RLock()
+	defer prepareMu.RUnlock()
+
 	prefix := p.Prefix.String()
 	if p.Auto {
 		// Make a best-effort to note the current prefixes if the user is using
@@ -294,6 +313,9 @@ func (p *Prefix) String() string {
 
 // Prepare implements Plugin.
 func (p *Prefix) Prepare(ifi *net.Interface) error {
+	prepareMu.Lock()
+	defer prepareMu.Unlock()
+
 	// Use the real system time.
 	p.TimeNow = time.Now
 
@@ -306,6 +328,9 @@ func (p *Prefix) Prepare(ifi *net.Interface) error {
 
 // Apply implements Plugin.
 func (p *Prefix) Apply(ra *ndp.RouterAdvertisement) error {
+	prepareMu.RLock()
+	defer prepareMu.RUnlock()
+
 	if p.Deprecated && p.TimeNow == nil {
 		return errNotPrepared
 	}
@@ -464,6 +489,9 @@ func (*Route) Name() string { return "route" }
 
 // String implements Plugin.
 func (r *Route) String() string {
+	prepareMu.RLock()
+	defer prepareMu.RUnlock()
+
 	prefix := r.Prefix.String()
 	if r.Auto {
 		// Make a best-effort to note the current routes if the user is using
@@ -495,6 +523,9 @@ func (r *Route) String() string {
 
 // Prepare implements Plugin.
 func (r *Route) Prepare(_ *net.Interface) error {
+	prepareMu.Lock()
+	defer prepareMu.Unlock()
+
 	// Use the real system time.
 	r.TimeNow = time.Now
 
@@ -506,6 +537,9 @@ func (r *Route) Prepare(_ *net.Interface) error {
 
 // Apply implements Plugin.
 func (r *Route) Apply(ra *ndp.RouterAdvertisement) error {
+	prepareMu.RLock()
+	defer prepareMu.RUnlock()
+
 	if r.Deprecated && r.TimeNow == nil {
 		return errNotPrepared
 	}
@@ -647,6 +681,9 @@ func (r *RDNSS) Name() string { return "rdnss" }
 
 // String implements Plugin.
 func (r *RDNSS) String() string {
+	prepareMu.RLock()
+	defer prepareMu.RUnlock()
+
 	var servers []string
 	if r.Auto {
 		// Make a best-effort to note the current server if the user is using
@@ -674,6 +711,9 @@ func (r *RDNSS) String() string {
 
 // Prepare implements Plugin.
 func (r *RDNSS) Prepare(ifi *net.Interface) error {
+	prepareMu.Lock()
+	defer prepareMu.Unlock()
+
 	// Fetch addresses from the specified interface whenever invoked.
 	a := system.NewAddresser()
 	r.Addrs = func() ([]system.IP, error) { return a.AddressesByIndex(ifi.Index) }
@@ -683,6 +723,9 @@ func (r *RDNSS) Prepare(ifi *net.Interface) error {
 
 // Apply implements Plugin.
 func (r *RDNSS) Apply(ra *ndp.RouterAdvertisement) error {
+	prepareMu.RLock()
+	defer prepareMu.RUnlock()
+
 	if !r.Auto {
 		// User specified exact servers so apply them directly.
 		r.apply(r.Servers, ra)
